@@ -1,2 +1,42 @@
-(* C05 -- placeholder until the theorems are stated; see DESIGN.md *)
-From NV Require Import Model.Matcher Spec.Matching.
+(* C05 -- Substring, prefix, postfix and exact matching decide the documented relations.
+   Statements in Spec/Statements.v, proofs in Proofs/C05Facts.v.  Quantification: every configuration,
+   haystack, already-normalised non-empty needle, representation pair outside the known finding K1.
+   memchr / memmem are modelled by their specification (the model enumerates occurrence positions in
+   ascending order); which of the four ASCII prefilters the Rust code picks is tied by the correspondence. *)
+From Coq Require Import NArith List Bool.
+From NV Require Import Model.Matcher Spec.Matching Spec.Statements Proofs.C05Facts.
+Import ListNotations.
+Local Open Scope N_scope.
+
+Theorem C05_exact_kinds : C05_exact_kinds_stmt.
+Proof. exact C05Facts.C05_exact_kinds. Qed.
+
+Theorem C05_substring : C05_substring_stmt.
+Proof. exact C05Facts.C05_substring. Qed.
+
+(* the candidate search used by substring and single-character matching returns the leftmost
+   candidate with the maximal bonus (shared with C04) *)
+Theorem C05_best_pos : C04_best_pos_stmt.
+Proof. exact C05Facts.C04_best_pos. Qed.
+
+Theorem C05_K1_refuted :
+  exists cfg hs ns, known_K1 hs ns /\ spec_substring_pos cfg (rp hs) (cs hs) (cs ns) = Some 1 /\
+                    run cfg Substring hs ns = NoMatch.
+Proof.
+  exists (config_of preset_default true true false), {| rp := Ascii; cs := [120; 97; 98; 120] |}, {| rp := Unicode; cs := [97; 98] |}.
+  vm_compute. repeat split; reflexivity.
+Qed.
+
+Example C05_nonvacuous :
+  let cfg := config_of preset_match_paths true true false in
+  let hs := {| rp := Ascii; cs := [97; 49; 47; 49; 47; 49] |} in     (* "a1/1/1" *)
+  let ns := {| rp := Ascii; cs := [49; 47; 49] |} in                 (* "1/1": overlapping occurrences at 1 and 3 *)
+  needle_ok cfg (rp ns) (cs ns) = true /\ ~ known_K1 hs ns /\
+  spec_substring_pos cfg (rp hs) (cs hs) (cs ns) = Some 3 /\
+  match run cfg Substring hs ns with Match _ idx => idx = [3; 4; 5] | _ => False end.
+Proof. vm_compute. repeat split; try reflexivity. intros [_ H]; discriminate. Qed.
+
+Print Assumptions C05_exact_kinds.
+Print Assumptions C05_substring.
+Print Assumptions C05_best_pos.
+Print Assumptions C05_K1_refuted.
